@@ -3,7 +3,10 @@ times inside THIS process (whose PYTHONHASHSEED the harness chose):
 
   run A   after the global generators (random, numpy.random, torch) were put in state 1
   run R   a second call of plan_on / train_on / run_on / the query on the SAME object run A built
+  runs X  the SAME object pointed at a second problem with the same labels and different numbers (XR), then called
+          on the first problem again (XA), and a fresh object on the second problem (XF): XR = XF and XA = A
   run B   a fresh object immediately afterwards, nothing re-seeded  ("twice in one process")
+  run T   a fresh object on a problem object that was already USED (cached views touched) before being handed over
   runs C  after the global generators were put in different states 2, 3, ... ("scrambled"; case["scrambles"] of them)
   run D   after the global generators were put back in state 1       (separates dependence on the
                                                                       global state from plain non-determinism)
@@ -114,11 +117,28 @@ def set_globals(k):
 # ----------------------------------------------------------------------------
 # problems (constructed from the JSON spec with a PRIVATE generator; identical in every process)
 # ----------------------------------------------------------------------------
+PRETOUCH = [False]      # run T: every base problem object is USED (cached views touched) before it is handed over
+
+
 def labeller(spec):
-    if spec.get("labels", "str") == "str":
+    """label schemes: str | int (0 is the initial state / first action) | tuple | falsy_str ("" is the initial state and
+    the first action) | falsy_tuple (() ...) | float (0.0 ...) | negint (negative, 0 in the middle) | unsorted (strings
+    whose construction order is not their sorted order)"""
+    lab = spec.get("labels", "str")
+    if lab == "str":
         return (lambda i: "s%d" % i), (lambda j: "a%d" % j)
-    if spec["labels"] == "tuple":
+    if lab == "tuple":
         return (lambda i: (i // 3, i % 3)), (lambda j: (j, -j))
+    if lab == "falsy_str":
+        return (lambda i: "" if i == 0 else "t%d" % i), (lambda j: "" if j == 0 else "b%d" % j)
+    if lab == "falsy_tuple":
+        return (lambda i: () if i == 0 else (i,)), (lambda j: () if j == 0 else (j,))
+    if lab == "float":
+        return (lambda i: 0.5 * i), (lambda j: float(j))
+    if lab == "negint":
+        return (lambda i: i - 3), (lambda j: j - 1)
+    if lab == "unsorted":
+        return (lambda i: "q%02d" % ((37 * i + 11) % 100)), (lambda j: "z%02d" % ((61 * j + 7) % 100))
     return (lambda i: i), (lambda j: j)
 
 
@@ -135,13 +155,19 @@ def rand_tables(spec):
                 succ[0] = i + 1                      # action 0 keeps a chain to the goal n-1
             cuts = sorted(r.sample(range(1, 8), len(succ) - 1))
             parts = [b - a for a, b in zip([0] + cuts, cuts + [8])]
-            trans[(i, j)] = list(zip(succ, [p / 8 for p in parts]))
+            probs = [p / 8 for p in parts]
+            if spec.get("tiny") and len(succ) >= 2:
+                # probabilities next to the boundaries: 2^-30 and 1-2^-20 (remaining mass on the last successor)
+                probs = [2.0 ** -30] + [0.0] * (len(succ) - 2) + [1.0 - 2.0 ** -30] if i % 2 else \
+                        [1.0 - 2.0 ** -20] + [0.0] * (len(succ) - 2) + [2.0 ** -20]
+                succ, probs = zip(*[(t, p) for t, p in zip(succ, probs) if p > 0])
+            trans[(i, j)] = list(zip(succ, probs))
     return trans
 
 
 def rand_mdp(spec):
     from msdm.core.mdp.quickmdp import QuickTabularMDP, QuickMDP
-    from msdm.core.distributions import DictDistribution
+    from msdm.core.distributions import DictDistribution, UniformDistribution, DeterministicDistribution
     n, k = spec["n"], spec["k"]
     sl, al = labeller(spec)
     trans = rand_tables(spec)
@@ -149,21 +175,30 @@ def rand_mdp(spec):
     aidx = {al(j): j for j in range(k)}
     goal = n - 1
     style = spec.get("reward", "cost")
+    scale = fl(spec.get("reward_scale", "1"))
 
     def reward(s, a, ns):
         i, j, t = idx[s], aidx[a], idx[ns]
         if style == "goal":
             return 1.0 if t == goal else -0.04
-        return -float(1 + (7 * i + 3 * j + t) % 4)
+        return -float(1 + (7 * i + 3 * j + t) % 4) * scale
 
     actions = tuple(al(j) for j in range(k))
+    if spec.get("actions_as") == "list":
+        actions = list(actions)
     common = dict(reward=reward, actions=lambda s: actions, is_absorbing=lambda s: idx[s] == goal,
                   discount_rate=fl(spec.get("gamma", "19/20")))
     if spec.get("deterministic", False):
         return QuickMDP(next_state=lambda s, a: sl(trans[(idx[s], aidx[a])][0][0]) if idx[s] != goal else s,
                         initial_state=sl(0), **common)
     ninit = spec.get("ninit", 1)
-    init = DictDistribution({sl(i): 1 / ninit for i in range(ninit)})
+    form = spec.get("init_dist", "dict")
+    if form == "uniform":
+        init = UniformDistribution([sl(i) for i in range(ninit)])
+    elif form == "det":
+        init = DeterministicDistribution(sl(0))
+    else:
+        init = DictDistribution({sl(i): 1 / ninit for i in range(ninit)})
 
     def nsd(s, a):
         if idx[s] == goal:
@@ -172,13 +207,39 @@ def rand_mdp(spec):
     return QuickTabularMDP(next_state_dist=nsd, initial_state_dist=init, **common)
 
 
+def touch(p):
+    """use the object the way earlier client code might have: every cached view is computed once"""
+    for attr in ("state_list", "action_list", "observation_list", "transition_matrix", "reward_matrix",
+                 "observation_matrix", "state_action_reward_matrix", "initial_state_vec", "absorbing_state_vec",
+                 "reachable_state_vec", "action_matrix", "nonterminal_state_vec"):
+        try:
+            getattr(p, attr)
+        except BaseException as e:
+            if isinstance(e, (KeyboardInterrupt, SystemExit)):
+                raise
+    for meth in ("reachable_states", "initial_state_dist"):
+        try:
+            getattr(p, meth)()
+        except BaseException as e:
+            if isinstance(e, (KeyboardInterrupt, SystemExit)):
+                raise
+    return p
+
+
 def build_problem(spec):
+    p = build_problem_(spec)
+    if PRETOUCH[0]:
+        touch(p)
+    return p
+
+
+def build_problem_(spec):
     kind = spec["kind"]
     if kind == "rand":
         return rand_mdp(spec)
     if kind == "rngrid":
         from msdm.tests.domains import make_russell_norvig_grid
-        return make_russell_norvig_grid(discount_rate=.95, slip_prob=0.8)
+        return make_russell_norvig_grid(discount_rate=.95, slip_prob=fl(spec.get("slip_prob", "4/5")))
     if kind == "gridworld":
         from msdm.domains import GridWorld
         return GridWorld(tile_array=spec["tiles"], discount_rate=fl(spec.get("gamma", "19/20")),
@@ -204,44 +265,88 @@ def build_problem(spec):
     raise ValueError("unknown problem kind %r" % kind)
 
 
+def second_problem(spec, par):
+    """same labels, different numbers (None when the kind has no such sibling)"""
+    kind = spec["kind"]
+    if kind == "rand":
+        return dict(spec, pseed=spec["pseed"] + 1000, n=spec["n"] + int(par.get("second_problem_n_delta", 0)))
+    if kind == "gridworld":
+        return dict(spec, success_prob="3/5" if spec.get("success_prob", "1") != "3/5" else "4/5") if spec.get("success_prob", "1") != "1" else None
+    if kind == "rngrid":
+        return dict(spec, slip_prob="3/5")
+    if kind in ("tiger", "heavenorhell"):
+        return dict(spec, coherence="7/10")
+    if kind == "loadunload":
+        return dict(spec, gamma="9/10")
+    return None
+
+
 def policy_table(policy, states):
     return {s: policy.action_dist(s) for s in states}
 
 
+class Listener:
+    """event listener used by the listener variants: counts calls (LAO*, LRTDP)"""
+    def __init__(self):
+        self.n = 0
+
+    def main_lao_star_loop(self, localvars):
+        self.n += 1
+
+    def end_of_lrtdp_trial(self, localvars):
+        self.n += 1
+
+    def end_of_lrtdp_timestep(self, localvars):
+        self.n += 1
+
+
 # ----------------------------------------------------------------------------
-# components: each returns a plain structure of the observable result
+# components.  Each builder CONSTRUCTS the objects from (problem, seed, params) and returns  call(other=None):
+# the per-call entry point (plan_on / train_on / run_on / query) on the problem the object was built with, or — for
+# objects that take the problem per call — on another problem object `other` (run X).  Builders that cannot be
+# pointed at another problem set  call.rebindable = False.
 # ----------------------------------------------------------------------------
 def c_laostar(spec, seed, par):
-    from msdm.algorithms.laostar import LAOStar
+    from msdm.algorithms.laostar import LAOStar, LAOStarEventListener
     mdp = build_problem(spec)
-    planner = LAOStar(heuristic=lambda s: 0.0, seed=seed,
+    heur = 0.0 if par.get("heuristic_constant") else (lambda s: 0.0)       # non-callable heuristics are wrapped by LAOStar
+    kw = {}
+    if par.get("listener"):
+        kw["event_listener_class"] = type("L", (Listener, LAOStarEventListener), {})
+    planner = LAOStar(heuristic=heur, seed=seed,
                       randomize_action_order=par.get("randomize_action_order", True),
                       randomize_nextstate_order=par.get("randomize_nextstate_order", True),
-                      max_lao_star_iterations=par.get("max_iterations", 2000))
+                      max_lao_star_iterations=par.get("max_iterations", 2000), **kw)
 
-    def call():
-        res = planner.plan_on(mdp)
+    def call(other=None):
+        res = planner.plan_on(mdp if other is None else other)
         svm = res.state_value_map
         return {"initial_value": res.initial_value, "state_value_map": svm, "iterations": res.iterations,
                 "converged": res.converged, "policy": policy_table(res.policy, list(svm.keys())),
                 "visit_order": res.explicit_graph.states_by_visitorder(),
-                "expanded_order": res.explicit_graph.states_by_expandedorder()}
+                "expanded_order": res.explicit_graph.states_by_expandedorder(),
+                "listener_calls": res.event_listener.n if res.event_listener is not None else None}
     return call
 
 
 def c_lrtdp(spec, seed, par):
-    from msdm.algorithms.lrtdp import LRTDP
+    from msdm.algorithms.lrtdp import LRTDP, LRTDPEventListener
     mdp = build_problem(spec)
+    kw = {}
+    if par.get("listener"):
+        kw["event_listener_class"] = type("L", (Listener, LRTDPEventListener), {})
     planner = LRTDP(heuristic=lambda s: 0.0, seed=seed, iterations=par.get("iterations", 200),
                     randomize_action_order=par.get("randomize_action_order", True),
-                    bellman_error_margin=1e-2)
+                    max_trial_length=par.get("max_trial_length"),
+                    bellman_error_margin=1e-2, **kw)
 
-    def call():
-        res = planner.plan_on(mdp)
+    def call(other=None):
+        res = planner.plan_on(mdp if other is None else other)
         V = dict(res.V)
         return {"V": V, "initial_value": res.initial_value, "Q": {s: dict(q) for s, q in res.Q.items()},
-                "policy": policy_table(res.policy, list(V.keys())), "action_orders": dict(res.action_orders),
-                "solved": dict(res.solved), "seed": res.seed}
+                "policy": policy_table(res.policy, list(V.keys())), "action_orders": {s: list(o) for s, o in res.action_orders.items()},
+                "solved": dict(res.solved), "seed": res.seed, "converged": getattr(res, "converged", None),
+                "listener_calls": res.event_listener.n if res.event_listener is not None else None}
     return call
 
 
@@ -252,8 +357,8 @@ def c_astar(spec, seed, par):
                           randomize_action_order=par.get("randomize_action_order", True),
                           tie_breaking_strategy=par.get("tie_breaking_strategy", "random"))
 
-    def call():
-        res = planner.plan_on(mdp)
+    def call(other=None):
+        res = planner.plan_on(mdp if other is None else other)
         return {"path": res.path, "path_value": res.path_value, "visited": res.visited,
                 "policy": policy_table(res.policy, res.path[:-1]), "non_monotonic": res.non_monotonic_counter}
     return call
@@ -262,10 +367,10 @@ def c_astar(spec, seed, par):
 def c_bfs(spec, seed, par):
     from msdm.algorithms.search import BreadthFirstSearch
     mdp = build_problem(spec)
-    planner = BreadthFirstSearch(seed=seed, randomize_action_order=True)
+    planner = BreadthFirstSearch(seed=seed, randomize_action_order=par.get("randomize_action_order", True))
 
-    def call():
-        res = planner.plan_on(mdp)
+    def call(other=None):
+        res = planner.plan_on(mdp if other is None else other)
         return {"path": res.path, "visited": res.visited, "policy": policy_table(res.policy, res.path[:-1])}
     return call
 
@@ -273,16 +378,19 @@ def c_bfs(spec, seed, par):
 def c_td(spec, seed, par):
     from msdm.algorithms import tdlearning
     objs = []
+    iq = par.get("initial_q")
+    initial_q = 0.0 if iq is None else ((lambda s, a: 0.25) if iq == "callable" else (1 if iq == "int1" else fl(iq)))
     for name in par.get("learners", ["QLearning", "DoubleQLearning", "SARSA", "ExpectedSARSA"]):
         objs.append((name, build_problem(spec),
-                     getattr(tdlearning, name)(episodes=par.get("episodes", 12), step_size=.5,
+                     getattr(tdlearning, name)(episodes=par.get("episodes", 12), step_size=fl(par.get("step_size", "1/2")),
                                                rand_choose=fl(par.get("rand_choose", "1/10")),
-                                               softmax_temp=fl(par.get("softmax_temp", "0")), seed=seed)))
+                                               softmax_temp=fl(par.get("softmax_temp", "0")),
+                                               initial_q=initial_q, seed=seed)))
 
-    def call():
+    def call(other=None):
         out = {}
         for name, mdp, learner in objs:
-            res = learner.train_on(mdp)
+            res = learner.train_on(mdp if other is None else other)
             q = {s: dict(av) for s, av in res.q_values.items()}
             out[name] = {"q": q, "episode_rewards": res.event_listener_results.episode_rewards,
                          "policy": policy_table(res.policy, list(q.keys()))}
@@ -295,8 +403,8 @@ def c_rmax(spec, seed, par):
     mdp = build_problem(spec)
     learner = RMAX(episodes=par.get("episodes", 8), rmax=1.0, num_transition_samples=par.get("m", 2), seed=seed)
 
-    def call():
-        res = learner.train_on(mdp)
+    def call(other=None):
+        res = learner.train_on(mdp if other is None else other)
         q = {s: dict(av) for s, av in res.q_values.items()}
         return {"q": q, "episode_rewards": res.event_listener_results.episode_rewards,
                 "policy": policy_table(res.policy, list(q.keys()))}
@@ -308,8 +416,8 @@ def c_bpi(spec, seed, par):
     pomdp = build_problem(spec)
     learner = FSCBoundedPolicyIteration(controller_state_count=par.get("nodes", 2), iterations=par.get("iterations", 4), seed=seed)
 
-    def call():
-        res = learner.train_on(pomdp)
+    def call(other=None):
+        res = learner.train_on(pomdp if other is None else other)
         return {"value": res.value, "state_controller_value": res.state_controller_value, "converged": res.converged,
                 "action_strategy": res.policy.action_strategy, "observation_strategy": res.policy.observation_strategy,
                 "initial_state_dist": res.policy.initial_state_dist, "seed_used": learner.seed}
@@ -322,8 +430,8 @@ def c_ga(spec, seed, par):
     learner = FSCGradientAscent(controller_state_count=par.get("nodes", 2), iterations=par.get("iterations", 12),
                                 learning_rate=1e-1, seed=seed)
 
-    def call():
-        res = learner.train_on(pomdp)
+    def call(other=None):
+        res = learner.train_on(pomdp if other is None else other)
         return {"expected_value": res.value.expected_value, "action_logit": res.controller_logit.action,
                 "state_logit": res.controller_logit.state, "initial_logit": res.controller_logit.initial_state,
                 "seed_used": learner.seed}
@@ -340,43 +448,74 @@ def c_semimdp(spec, seed, par):
     targets = [sl[n // 2], sl[n - 1]]
     options = []
     for t, sub in enumerate(targets):
-        name = ("to-%s" % (sub,)) if par.get("option_names", "str") == "str" else 1000 + t
+        mode = par.get("option_names", "str")
+        name = ("to-%s" % (sub,)) if mode == "str" else ([0, ""][t] if mode == "falsy" else 1000 + t)
         options.append(PlanToSubgoalOption(mdp=mdp, initial_states=[s for s in sl if s != sub and not mdp.is_absorbing(s)],
                                            subgoals=[sub] + [g for g in sl if mdp.is_absorbing(g) and g != sub], planner=ValueIteration(max_iterations=200), name=name,
                                            max_steps=400, include_mdp_absorbing_states=True))
-    smdp = SemiMarkovDecisionProcess(mdp=mdp, options=options, n_option_simulations=par.get("nsim", 12), seed=seed)
+    smdp = SemiMarkovDecisionProcess(mdp=mdp, options=options, n_option_simulations=par.get("nsim", 12), seed=seed,
+                                     include_mdp_actions=bool(par.get("include_mdp_actions", False)))
 
-    def call():
+    def call(other=None):
         out = []
         for s in sl[:par.get("nstates", 4)]:
             for o in options:
                 if o.is_initial(s):
                     out.append([s, o.name, smdp.next_state_transit_time_reward_dist(s, o)])
         out.append(["again", smdp.next_state_transit_time_reward_dist(sl[0], options[-1])])
+        if par.get("include_mdp_actions"):
+            a0 = mdp.actions(sl[0])[0]                       # ground action: exact branch, no simulation
+            out.append(["ground", a0, smdp.next_state_transit_time_reward_dist(sl[0], a0),
+                        [repr(type(x).__name__) for x in smdp.actions(sl[0])]])
+            out.append(["derived", smdp.next_state_dist(sl[0], options[-1]), smdp.next_state_transit_time_dist(sl[0], options[-1]),
+                        smdp.expected_cumulative_reward(sl[0], options[-1])])
         return out
+    call.rebindable = False
     return call
 
 
 def c_implicit(spec, seed, par):
     from msdm.core.distributions.distributions import ImplicitDistribution
-    words = spec.get("events", ["left", "right", "up", "down"])
+    from msdm.core.distributions import DictDistribution, UniformDistribution, DeterministicDistribution
+    words = [tuple(w) if isinstance(w, list) else w for w in spec.get("events", ["left", "right", "up", "down"])]
     n = par.get("n_samples", 60)
 
     def func(rng):
         return (words[int(rng.random() * len(words))], rng.randint(0, 2))
 
-    def call():
+    def call(other=None):
         # an ImplicitDistribution is itself the seeded generator (sample() must advance it), so the per-call entry
         # point here is "construct from the seed, then a fixed sequence of queries"
         # (extract_sites.AUDITED_STATEFUL; msdm's own tests draw repeatedly from one ImplicitDistribution object)
         d = ImplicitDistribution(func, n_samples=n, _seed=seed)
         out = {"items": dict(d.items()), "samples": [d.sample() for _ in range(5)],
+               "samples_rng": [d.sample(rng=_random.Random(seed)) for _ in range(2)],
                "expectation": d.expectation(lambda e: e[1] * 0.3 + len(str(e[0])))}
         d2 = ImplicitDistribution(func, n_samples=n, _seed=seed)
         out["marginal"] = dict(d2.marginalize(lambda e: e[0]).items())
         out["conditioned"] = dict(d2.condition(lambda e: e[1] != 1).items())
+        try:                                                  # error path: no sample satisfies the predicate
+            out["impossible"] = dict(ImplicitDistribution(func, n_samples=n, _seed=seed).condition(lambda e: False).items())
+        except ValueError as e:
+            out["impossible"] = "ValueError"
+        # the finite distributions' sample(): single-element early return, k > 1, list / keys-view supports
+        g = _random.Random(seed)
+        dd = DictDistribution({w: (i + 1) / sum(range(1, len(words) + 1)) for i, w in enumerate(words)})
+        out["finite"] = [dd.sample(rng=g), dd.sample(rng=g, k=3), UniformDistribution(list(words)).sample(rng=g),
+                         DictDistribution({words[0]: 1.0}).sample(rng=g), DeterministicDistribution(words[-1]).sample(rng=g),
+                         (dd * .5 | UniformDistribution(list(words)) * .5).sample(rng=g, k=2), g.random()]
         return out
+    call.rebindable = False
     return call
+
+
+def pick_state(mdp, which):
+    sl = list(mdp.state_list)
+    if which == "first":
+        return sl[0]
+    if which == "absorbing":
+        return next(s for s in sl if mdp.is_absorbing(s))
+    return None
 
 
 def c_mdp_rollout(spec, seed, par):
@@ -384,11 +523,18 @@ def c_mdp_rollout(spec, seed, par):
     from msdm.core.distributions import DictDistribution
     mdp = build_problem(spec)
     policy = FunctionalPolicy(lambda s: DictDistribution.uniform(mdp.actions(s)))
+    if par.get("policy") == "tabular":
+        policy = policy.to_tabular(mdp.state_list, mdp.action_list)
+    ms = par.get("max_steps", 25)
 
-    def call():          # same policy object, an EQUALLY SEEDED generator per call (the property's hypothesis)
-        run = policy.run_on(mdp, max_steps=par.get("max_steps", 25), rng=_random.Random(seed))
-        ev = policy.evaluate_on(mdp, n_simulations=par.get("nsim", 8), max_steps=par.get("max_steps", 25), rng=_random.Random(seed))
-        return {"run": run, "state_value": dict(ev.state_value.items()), "initial_value": ev.initial_value,
+    def call(other=None):          # same policy object, an EQUALLY SEEDED generator per call (the property's hypothesis)
+        m = mdp if other is None else other
+        kw = {}
+        if par.get("initial_state"):
+            kw["initial_state"] = pick_state(m, par["initial_state"])
+        run = policy.run_on(m, max_steps=ms, rng=_random.Random(seed), **kw)
+        ev = policy.evaluate_on(m, n_simulations=par.get("nsim", 8), max_steps=max(ms, 1), rng=_random.Random(seed))
+        return {"run": run, "len": len(run), "state_value": dict(ev.state_value.items()), "initial_value": ev.initial_value,
                 "action_value": {s: dict(av.items()) for s, av in ev.action_value.items()},
                 "occupancy": dict(ev.state_occupancy.items())}
     return call
@@ -402,12 +548,28 @@ def c_pomdp_rollout(spec, seed, par):
     g = np.random.default_rng(par.get("controller_seed", 5))      # private generator: fixed controller
     nc = par.get("nodes", 2)
     norm = lambda a: a / a.sum(-1, keepdims=True)
-    policy = StochasticFiniteStateController(pomdp, norm(g.uniform(1, 2, (nc, nactions))),
-                                             norm(g.uniform(1, 2, (nc, nactions, nobs, nc))), norm(g.uniform(1, 2, (nc,))))
+    if par.get("controller") == "valuebased":
+        from msdm.core.pomdp.policy import ValueBasedTabularPOMDPPolicy
 
-    def call():
-        traj = policy.run_on(pomdp, max_steps=par.get("max_steps", 12), rng=_random.Random(seed))
-        return {"traj": traj}
+        class VB(ValueBasedTabularPOMDPPolicy):              # belief-based policy of the anchored file, with exact ties
+            def action_value(self, b, a):
+                return b[1][0] if a == self.pomdp.action_list[0] else 0.5
+        policy = VB(pomdp)
+    else:
+        policy = StochasticFiniteStateController(pomdp, norm(g.uniform(1, 2, (nc, nactions))),
+                                                 norm(g.uniform(1, 2, (nc, nactions, nobs, nc))), norm(g.uniform(1, 2, (nc,))))
+
+    def call(other=None):
+        p = pomdp if other is None else other
+        kw = {}
+        if par.get("initial_state"):
+            kw["initial_state"] = list(p.state_list)[0]
+        if par.get("initial_agentstate") is not None:
+            kw["initial_agentstate"] = par["initial_agentstate"]           # 0: a falsy node, passed explicitly
+        traj = policy.run_on(p, max_steps=par.get("max_steps", 12), rng=_random.Random(seed), **kw)
+        return {"traj": traj, "len": len(traj)}
+    if par.get("controller") == "valuebased":
+        call.rebindable = False      # the belief policy carries the pomdp it was built with
     return call
 
 
@@ -428,7 +590,7 @@ def render(val):
 
 
 def bracket(thunk):
-    """one run bracketed by global-generator snapshots; thunk() -> (rendered result, anything to keep)"""
+    """one run bracketed by global-generator snapshots; thunk() -> (result, anything to keep)"""
     before = snapshot()
     keep = None
     try:
@@ -446,11 +608,11 @@ def bracket(thunk):
 
 def one(case, pl):
     fn = COMPONENTS[case["component"]]
-
+    par = case.get("params", {})
     holder = {}
 
-    def fresh():
-        call = fn(case["problem"], case["seed"], case.get("params", {}))     # construction is part of the run
+    def fresh(spec=None):
+        call = fn(spec or case["problem"], case["seed"], par)     # construction is part of the run
         holder["call"] = call
         return call(), call
 
@@ -462,8 +624,22 @@ def one(case, pl):
         # run R: a SECOND call of the per-call entry point on the SAME planner / learner / policy / semi-MDP object
         out["R"], _ = bracket(lambda: (call(), None))
     else:
-        out["R"] = {"error": "NoObject: first run raised before the object existed", "globals_changed": []}
+        out["R"] = dict(out["A"], globals_changed=[])       # construction itself raised: nothing to call a second time
+    # runs X: the same object pointed at a SECOND problem (same labels, different numbers) must behave like a fresh
+    # object on that problem, and, called on the first problem afterwards, must still reproduce run A
+    spec2 = second_problem(case["problem"], par)
+    if call is not None and spec2 is not None and getattr(call, "rebindable", True) and case.get("x", True):
+        out["XR"], _ = bracket(lambda: (call(build_problem(spec2)), None))
+        out["XA"], _ = bracket(lambda: (call(), None))
+        out["XF"], _ = bracket(lambda: fresh(spec2))
     out["B"], _ = bracket(fresh)
+    # run T: base objects already used (cached views touched) before being handed to the component
+    if case.get("t", True):
+        PRETOUCH[0] = True
+        try:
+            out["T"], _ = bracket(fresh)
+        finally:
+            PRETOUCH[0] = False
     out["C"] = []
     for k in range(2, 2 + int(case.get("scrambles", 1))):
         set_globals(k)
